@@ -220,7 +220,7 @@ class ExecGen:
 
     def observe(self):
         r = self.rng
-        for i in sorted(set(self.ids))[-8:]:
+        for i in sorted(set(self.ids))[-8:] + getattr(self, "watch", []):
             self.ops.append(f"q status {i}")
         for g in self.groups[-3:]:
             if g["begun"]:
@@ -231,7 +231,43 @@ class ExecGen:
         if r.random() < 0.5:
             self.ops.append(f"q bal {r.choice(USERS + ['adm0', 'ca1', 'ca2'])}")
 
+    def scripted_long_pair(self):
+        """one ordered pair is driven past index 10, so that ids of the pair are decimal prefixes of one another (…-1 and …-10):
+        request 1 is answered, requests 2..10 (or ..12) follow, request 10 gets the deadline of request 1, and the receipt
+        of request 1 is replayed (refused) while request 10 is open; ordinary traffic continues to the deadline and beyond"""
+        r = self.rng
+        f, t = r.choice([("c1:s1", "c2:s1"), ("c2:s1", "c1:s1"), ("c1:s2", "c2:s3"), ("c4:s1", "c2:s1")])
+        T1 = r.choice([7, 8, 9])
+        sf, st = ADMIN[f.split(":")[0]], ADMIN[t.split(":")[0]]
+
+        def blk(txs):
+            self.height += 1
+            self.ops.append("block " + " | ".join(txs))
+            self.observe()
+        h1 = self.height + 1
+        blk([f"ibtp {sf} {f} {t} 1 req {T1} - ok"])
+        self.ids.append(ibtp_id(f, t, 1))
+        blk([f"ibtp {st} {f} {t} 1 ok 0 - ok"])
+        blk([f"ibtp {sf} {f} {t} {i} req {r.choice([0, 2, 3, 10, 2 ** 62])} - ok" for i in range(2, 10)])
+        last = r.choice([10, 10, 11, 12])
+        h10 = self.height + 1
+        T10 = h1 + T1 - h10
+        blk([f"ibtp {sf} {f} {t} {i} req {T10 if i == 10 else r.choice([0, T10, 10])} - ok" for i in range(10, last + 1)])
+        for i in range(9, last + 1):
+            self.ids.append(ibtp_id(f, t, i))
+        # the replayed receipt of the finished request 1, and a receipt for an id that was never requested
+        blk([f"ibtp {st} {f} {t} 1 {r.choice(['ok', 'ok', 'fail'])} 0 - ok"] + ([f"ibtp {st} {f} {t} {last + 3} ok 0 - ok"] if r.random() < 0.4 else []))
+        self.ids.append(ibtp_id(f, t, 1))
+        self.ids.append(ibtp_id(f, t, 10))
+        self.next_req[(f, t)] = last + 1
+        self.next_rcpt[(f, t)] = 2
+        self.tags.add("long-pair-scenario")
+        self.watch = [ibtp_id(f, t, 1), ibtp_id(f, t, 10)]
+
     def history(self, nblocks):
+        if self.focus in ("single", "mixed") and self.rng.random() < 0.1:
+            self.scripted_long_pair()
+            nblocks = max(nblocks, 9)
         for _ in range(nblocks):
             self.block()
             self.observe()
